@@ -12,7 +12,7 @@ from ..norm import Normalizer, NormError
 from ..exc import EscapeAnalysis
 from ._kit_c06 import SymExec, ShapedEscapes, txt, parse as P, callable_body, _walk_values, apply_callable, filtered_iter, handler_types, inline_walrus
 from ._kit_c06 import CollView, kind_of_container, views_at_result, container_views_at_result, function_of_fields
-from ._kit_c06 import CUnsupported, CMethod, run_tick, tick_tables, recent_subset_invariant
+from ._kit_c06 import CUnsupported, CRaise, CMethod, CVal, CHandle, ConcreteEval, fresh_timeoutdict, run_tick, tick_tables, recent_subset_invariant
 
 R = Rules(
     "C06",
@@ -1330,6 +1330,63 @@ def _tick_filter(ctx, st, tk, p):
     return ok, detail, truth, (widx if widx is not None else last), anchor
 
 
+def _start_over_concrete(ctx, prog, so, tk):
+    """`_start_over` decided by its effect (concrete runs from the idle state and from the state of a timer that has just
+    fired, with two different lifetimes): afterwards exactly one timer is pending, due after `self.timeout` seconds --
+    call_later(self.timeout, ..), call_at(loop.time() + self.timeout, ..), the loop taken from get_running_loop() or kept
+    in a field are the same fact --, its callback is this instance's `_tick`, `self._timeout` is its handle, the set of
+    recently used keys is a fresh empty set and the stored entries are untouched.
+    -> False when outside the evaluator's vocabulary."""
+    cls = so.cls
+    if cls is None:
+        return False
+    runs = []
+    try:
+        for lifetime in (93.0, 7.5):
+            for running in (False, True):
+                ce = ConcreteEval(prog)
+                k = (0, 1)
+                items = {k: CVal("v1")} if running else {}
+                obj = fresh_timeoutdict(ce, prog, cls, items, {k} if running else None, CHandle(lifetime, None, ()) if running else None, lifetime)
+                before = list(items.items())
+                exc = None
+                try:
+                    ce.call_method(obj, so, [])
+                except CRaise as r:
+                    exc = r.exc
+                pending = [h for h in ce.loop.handles if not h.cancelled]
+                for h in pending:
+                    if not isinstance(h.callback, CMethod):
+                        raise CUnsupported("a timer callback that is not a bound method")
+                runs.append((lifetime, obj, exc, pending, before))
+    except CUnsupported as u:
+        ctx.note("TimeoutDict._start_over decided on symbolic paths (concrete evaluation: %s)" % u)
+        return False
+    okt, dt, okr, dr = True, None, True, None
+    for lifetime, obj, exc, pending, before in runs:
+        if exc is not None:
+            okt, dt = False, "raises %s" % type(exc).__name__
+            continue
+        h = pending[0] if len(pending) == 1 else None
+        if h is None:
+            okt, dt = False, "%d timers pending afterwards" % len(pending)
+        elif not (h.callback.fi is tk and h.callback.obj is obj and not h.args):
+            okt, dt = False, "the timer does not call self._tick()"
+        elif not (isinstance(h.delay, (int, float)) and abs(h.delay - lifetime) < 1e-9):
+            okt, dt = False, "the timer is due after %r s with self.timeout = %r" % (h.delay, lifetime)
+        elif obj.fields.get("_timeout") is not h:
+            okt, dt = False, "self._timeout is not the timer's handle"
+        ra = obj.fields.get("_recently_accessed")
+        if not (isinstance(ra, set) and not ra):
+            okr, dr = False, "the set of recently used keys is %s afterwards" % ("not a set" if not isinstance(ra, set) else "not empty")
+        it = obj.fields.get("_items")
+        if not (isinstance(it, dict) and list(it.items()) == before):
+            okr, dr = False, "the stored entries are changed"
+    ctx.ob("_start_over arms call_later(self.timeout, self._tick)", okt, so, so.node, detail=dt, construct="TimeoutDict._start_over: timer")
+    ctx.ob("_start_over resets the set of recently used keys", okr, so, so.node, detail=dr, construct="TimeoutDict._start_over: reset")
+    return True
+
+
 def _tick_concrete(ctx, prog, tk):
     """The expiry step decided by its EFFECT: `_tick` (with everything it calls: `_start_over`, helpers, the timer
     primitives of the event loop) is run by the kit's concrete evaluator on every table of up to three stored keys x every
@@ -1480,6 +1537,17 @@ def g(ctx):
                 ag.add("the timer is started only when none is running", not starts, starts[0] if starts else acc.node, construct="TimeoutDict._accessed: start", detail=_where(sa, f_))
     ag.flush()
     so = prog.func(td + "_start_over")
+    if not _start_over_concrete(ctx, prog, so, prog.func(td + "_tick")):
+        _start_over_symbolic(ctx, prog, so)
+    # _tick: new items = the old items whose key was used since the previous tick; re-arm iff any remain
+    tk = prog.func(td + "_tick")
+    if not _tick_concrete(ctx, prog, tk):
+        _tick_symbolic(ctx, prog, tk)
+    _lifetimes(ctx, prog, td)
+
+
+def _start_over_symbolic(ctx, prog, so):
+    """only for spellings of _start_over outside the concrete evaluator's vocabulary"""
     ss = SymExec(prog, so, include_exc=False)
     ag = _Agg(ctx, so)
     ag.saw(ss, ss.paths())
@@ -1496,11 +1564,6 @@ def g(ctx):
         okr = v is not None and ((isinstance(v, ast.Call) and chain(v.func) == "set" and not v.args and not v.keywords) or (isinstance(v, ast.Set) and not v.elts))
         ag.add("_start_over resets the set of recently used keys", okr, rs[-1].node if rs else so.node, construct="TimeoutDict._start_over: reset")
     ag.flush()
-    # _tick: new items = the old items whose key was used since the previous tick; re-arm iff any remain
-    tk = prog.func(td + "_tick")
-    if not _tick_concrete(ctx, prog, tk):
-        _tick_symbolic(ctx, prog, tk)
-    _lifetimes(ctx, prog, td)
 
 
 def _tick_symbolic(ctx, prog, tk):
@@ -1590,6 +1653,8 @@ R.seed("C06.g", F_T, "        self._items = {\n            k: v for (k, v) in se
 R.seed("C06.g", F_T, "        self._items = {\n            k: v for (k, v) in self._items.items() if k in self._recently_accessed\n        }\n", "        for k in self._recently_accessed - self._items.keys():\n            del self._items[k]\n", "the set difference the wrong way round: no stale entry is ever removed")
 R.seed("C06.g", F_T, "        self._items = {\n            k: v for (k, v) in self._items.items() if k in self._recently_accessed\n        }\n", "        for k in self._items.keys() - self._recently_accessed:\n            del self._items[k]\n            break\n", "only one stale entry is removed per period")
 R.seed("C06.g", F_T, "        if self._items:\n            self._start_over()", "        if len(self._items) > 1:\n            self._start_over()", "a single remaining entry does not re-arm the timer: it never expires, and the next access starts a period that forgets nothing")
+R.seed("C06.g", F_T, "call_later(self.timeout, self._tick)", "call_later(self.timeout / 2, self._tick)", "the period is half the lifetime: an entry used just after a tick is dropped before the lifetime is over")
+R.seed("C06.g", F_T, "call_later(self.timeout, self._tick)", "call_later(self.timeout, self._start_over)", "the timer re-arms itself without ever sweeping: nothing expires")
 R.seed("C06.g", F_T, "        if self._items:\n            self._start_over()", "        if not self._items:\n            self._start_over()", "timer stops while items remain")
 R.seed("C06.g", F_T, "        if self._timeout is None:\n            self._start_over()", "        if self._timeout is not None:\n            self._start_over()", "every access restarts the period and forgets the other keys")
 
